@@ -1,0 +1,11 @@
+//go:build verif
+
+package climate
+
+// Verification harness (build tag verif only; never part of a normal build): relational
+// statements about the climate helpers need two calls of the real function in one body.
+
+// verifDewPointPair returns the dew points of one dry-bulb temperature at two humidities.
+func verifDewPointPair(temperature, humidity1, humidity2 float64) (float64, float64) {
+	return calcDewPoint(temperature, humidity1), calcDewPoint(temperature, humidity2)
+}
